@@ -189,3 +189,8 @@ Example ex_js_template_tail : run_jstemplate_tail [125;98;96;59] = Ok (Some (4, 
 Proof. vm_compute. reflexivity. Qed.
 Example ex_js_template_unterminated : run_jstemplate_tail [125;98] = Ok None.
 Proof. vm_compute. reflexivity. Qed.
+
+(* hypothesis of decodePacket_never_hangs_partial on a nested packet (array in a map) *)
+Example ex_packet_nested_bytes : all_bytes [2;0;0;0; 6; 1;0;0;0; 1;0;0;0; 107; 5; 1;0;0;0; 0] /\
+  decodePacket [2;0;0;0; 6; 1;0;0;0; 1;0;0;0; 107; 5; 1;0;0;0; 0] = Ok (Some (1, true, PDict [([107], PArr [PNull])])).
+Proof. split; [repeat constructor; lia|vm_compute; reflexivity]. Qed.
